@@ -546,6 +546,18 @@ def plan(tier, master_seed, runs=None):
 
     n = runs if runs is not None else (320 if tier == "quick" else 12000)
     jobs = [{"kind": "run", "record": generate(run_seed(master_seed, PROP, i), tier)} for i in range(n)]
+    # directed runs: a machine whose numba cache holds only the parallel kernel
+    # (first ever use was with NUM_THREADS > 1) - the workers have to compile
+    nd = 3 if tier == "quick" else 24
+    if runs is not None and runs < 100:
+        nd = 0
+    directed = []
+    for k in range(nd):
+        rec = generate(run_seed(master_seed, PROP, f"directed{k}"), tier)
+        rec["parent"] = {"threads": 4, "presolve": ["same", "other", "same"][k % 3], "numba_state": "parallel_only"}
+        rec["ops"] = [{"op": "parallel", "strategy": ["towers", "time", "both"][k % 3], "max_workers": [2, 1, 3][k % 3]}] + rec["ops"][:1]
+        directed.append({"kind": "run", "record": rec, "timeout": 600})
+    jobs = directed + jobs
     return {"jobs": jobs, "determinism_slice": 6, "shrink_budget_s": 240}
 
 
